@@ -111,6 +111,10 @@ func (ch *Channel) Invoke(ctx context.Context, methodName string, req, resp inte
 	case <-respCh:
 	}
 	if err != nil {
+		if ctxErr := ctx.Err(); ctxErr != nil {
+			// reading the reply failed because the call was cancelled
+			return statusFromContextError(ctxErr)
+		}
 		return err
 	}
 	return codec.Unmarshal(b, resp)
@@ -397,6 +401,15 @@ func (cs *clientStream) doHttpCall(transport http.RoundTripper, req *http.Reques
 
 		if rErr != nil && cs.rErr == nil {
 			cs.rErr = rErr
+		}
+		if cs.rErr != nil {
+			if ctxErr := cs.ctx.Err(); ctxErr != nil {
+				if _, ok := status.FromError(cs.rErr); !ok {
+					// reading the reply failed because the call was
+					// cancelled or timed out: report that, as a status
+					cs.rErr = statusFromContextError(ctxErr)
+				}
+			}
 		}
 		cs.done = true
 		readPipe.CloseWithError(rErr)
